@@ -1,4 +1,5 @@
 //! Independent transcriptions of the published definitions (generic over `Num`, so they run symbolically and natively).
+pub mod cam16;
 pub mod cie;
 pub mod ciede2000;
 pub mod hexcone;
